@@ -161,7 +161,7 @@ def random_hypergraph(n, ps, order=None, seed=None):
 
     for d, p in zip(order, ps):
         for edge in combinations(nodes, d + 1):
-            if random.random() <= p:
+            if random.random() < p:
                 H.add_edge(edge)
     return H
 
